@@ -8,6 +8,7 @@ graph: the algorithms are modelled once over the slot structure `Topo`), every s
 every time step, any number of steps.
 -/
 import Strengths.Proofs.EulerConserve
+import Strengths.Proofs.Grid
 import Strengths.Model.CodeSnapshot
 import Strengths.Gen.Stoch
 
@@ -65,9 +66,10 @@ theorem reaction_total_zero {e : EngIn} {c : Nat → Rat} (hc : Cons e.net c) (h
 /-- a diffusion jump moves one molecule: it never creates or destroys any, whatever the boundary conditions,
 environments, volumes or graph topology (no `Cons` needed) -/
 theorem diffusion_jump_total_zero {e : EngIn} {c : Nat → Rat} (hf : Free e c) (htopo : TopoOK e) (x : State)
-    {i s n : Nat} (hi : i < e.topo.nCells) (hs : s < e.net.nSpecies) (hsome : (e.topo.nbr i n).isSome) :
+    {i s n : Nat} (hi : i < e.topo.nCells) (hs : s < e.net.nSpecies) (hn : n < e.topo.nSlots i)
+    (hsome : (e.topo.nbr i n).isSome) :
     total e c (applyEvent e x (.diffusion i s n)) = total e c x :=
-  total_applyEvent_diffusion hf htopo x hi hs hsome
+  total_applyEvent_diffusion hf htopo x hi hs hn hsome
 
 /-- `gillespie_conserves`, for every pair of draws -/
 theorem gillespie_conserves {e : EngIn} {c : Nat → Rat} (hv : EngValid e) (hc : Cons e.net c) (hf : Free e c)
@@ -90,9 +92,9 @@ theorem diffusion_total_zero {e : EngIn} (P : Pairing e) (x : State) (s : Nat) :
 FULL STATEMENT: `euler_conserves` for `gridTopo g …` (all w,h,d ≥ 1, all 8 boundary settings) and for
 `graphTopo …` (every edge list over the nodes), unconditionally.
 PROVED: `euler_conserves_partial` for every topology that has a `Pairing` (each half-edge has a reverse half-edge
-with the in/out constants swapped) — and `grid_pairing`: the grid has one, GIVEN the neighbour involution
-`engNbr? g i n = some j → j < size ∧ engNbr? g j (oppOf n) = some i` (builder "geom" proves it in Proofs/Grid.lean)
-and `oppOf (oppOf n) = n` (proved here from the generated table).
+with the in/out constants swapped); `euler_conserves_grid`: UNCONDITIONAL for every valid grid (all sizes, all 8
+boundary settings) — the pairing is the opposed direction, by the neighbour involution `nbr_involutive`
+(Proofs/Grid.lean, from the generated tables and wrap lines) and `oppOf (oppOf n) = n` (generated table).
 MISSING: the instance for `graphTopo` (pairing the two half-edges that `SetNeighbors` pushes for one edge needs an
 index bijection on `graphSlots`); the kd symmetry it needs is `graph_kd_symmetric` below.
 The correspondence + oracle cover both space types on the real engine.
@@ -119,6 +121,27 @@ def grid_pairing (g : GridShape) (net : Net) (env : Nat → Nat) (h : Rat) (chem
       simp only [gridTopo, hj']
     · show (gridTopo g net env h).kin j s (oppOf n) = gridKd g net env h i s n
       simp only [gridTopo, hback, hoo]
+
+/-- `euler_conserves` on every valid grid, all boundary settings, every volume / environment map / chemostat map -/
+theorem euler_conserves_grid (g : GridShape) (hv : g.valid = true) (net : Net) (env : Nat → Nat) (h : Rat)
+    (chem : Nat → Nat → Bool) {c : Nat → Rat}
+    (hc : Cons net c)
+    (hf : Free { net := net, topo := gridTopo g net env h, env := env, chem := chem, vol := fun _ => h * h * h } c)
+    (dt : Rat) (x : State) :
+    total { net := net, topo := gridTopo g net env h, env := env, chem := chem, vol := fun _ => h * h * h } c
+      (eulerStep { net := net, topo := gridTopo g net env h, env := env, chem := chem, vol := fun _ => h * h * h } dt x) =
+    total { net := net, topo := gridTopo g net env h, env := env, chem := chem, vol := fun _ => h * h * h } c x :=
+  euler_conserves hc hf
+    (grid_pairing g net env h chem (fun i n j hi hn hj => by
+      obtain ⟨h1, h2⟩ := nbr_involutive hv hi hn hj
+      exact ⟨h2, h1⟩)) dt x
+
+/-- the grid satisfies the topology side condition of the stochastic conservation theorems -/
+theorem grid_topo_ok (g : GridShape) (hv : g.valid = true) (net : Net) (env : Nat → Nat) (h : Rat)
+    (chem : Nat → Nat → Bool) (vol : Nat → Rat) :
+    TopoOK { net := net, topo := gridTopo g net env h, env := env, chem := chem, vol := vol } := by
+  intro i n j hi hn hj
+  exact (nbr_involutive hv hi hn hj).2
 
 /-- graph: the interface diffusivity is symmetric, so the two half-edges of one edge carry swapped constants:
 `kout` of one side (`D̄·S/(V_i·d)`) is `kin` of the other -/
